@@ -2,7 +2,7 @@
    Amplitudes  a + b*sqrt2 + i*(c + d*sqrt2)  with a b c d : Q; vectors are lists of 2^n amplitudes,
    index i = sum_q bit_q(i) 2^q  (Qiskit's little-endian convention).  Branches are kept UNNORMALISED
    (a projection only zeroes amplitudes), and the outcome probability is the ratio of squared norms, so no
-   square root is ever taken.  Gate set: x y z h s sdg sx sxdg cx cz swap (matrices as in qiskit.circuit.library).
+   square root is ever taken.  Gate set: x y z h s sdg sx sxdg cx cz swap ccx (matrices as in qiskit.circuit.library).
    Used as the non-vacuity instance and the in-Coq oracle of C13.  Definitions only; stdlib only. *)
 From Coq Require Import QArith List Arith Bool.
 Import ListNotations.
@@ -41,7 +41,7 @@ Definition vget (v : vec) (i : nat) : amp := nth i v azero.
 Definition init_vec (n : nat) : vec := aone :: repeat azero (2 ^ n - 1).
 Definition tabulate (v : vec) (f : nat -> amp) : vec := map f (seq 0 (length v)).
 
-Inductive qgate := Gx | Gy | Gz | Gh | Gs | Gsdg | Gsx | Gsxdg | Gcx | Gcz | Gswap.
+Inductive qgate := Gx | Gy | Gz | Gh | Gs | Gsdg | Gsx | Gsxdg | Gcx | Gcz | Gswap | Gccx.
 
 Definition ai : amp := mkamp 0 0 1 0.
 Definition ami : amp := mkamp 0 0 (-1) 0.
@@ -84,6 +84,11 @@ Definition qapply (g : qgate) (qs : list nat) (v : vec) : vec :=
                                                else Nat.lxor (Nat.lxor i (2 ^ a)) (2 ^ b)))
       | _ => v
       end
+  | None, [a; b; c] =>
+      match g with
+      | Gccx => tabulate v (fun i => vget v (if Nat.testbit i a && Nat.testbit i b then Nat.lxor i (2 ^ c) else i))  (* a b controls, c target *)
+      | _ => v
+      end
   | _, _ => v                                                 (* wrong arity: not generated *)
   end.
 
@@ -99,8 +104,10 @@ Definition qp1_exact (v : vec) (q : nat) : q2 := q2div (norm2_bit v q true) (nor
 
 Definition clamp01 (x : Q) : Q := if Qle_bool x 0 then 0%Q else if Qle_bool 1 x then 1%Q else x.
 
-(* the instrument's p1 : Q.  For the gate set above (Clifford) every reachable probability is rational
-   (0, 1/2 or 1), so the sqrt2-part of qp1_exact is 0 and the clamp is the identity;  `qp1_is_exact`
+(* the instrument's p1 : Q.  Every matrix entry of the gate set is a Gaussian integer times a fixed power of
+   1/sqrt2 per gate, so all amplitudes of a reachable vector share one denominator sqrt2^k and every squared
+   norm -- hence every reachable probability -- is rational (0, 1/2, 1 without ccx; other dyadic ratios with it):
+   the sqrt2-part of qp1_exact is 0 and the clamp is the identity;  `qp1_is_exact`
    is evaluated by the correspondence checker on every state that is measured (fail-closed audit). *)
 Definition qp1 (v : vec) (q : nat) : Q := clamp01 (fst (qp1_exact v q)).
 Definition qp1_is_exact (v : vec) (q : nat) : bool :=
@@ -116,6 +123,6 @@ Definition qflipx (v : vec) (q : nat) : vec := apply1 (azero, aone, aone, azero)
 Definition qgate_beq (a b : qgate) : bool :=
   match a, b with
   | Gx, Gx | Gy, Gy | Gz, Gz | Gh, Gh | Gs, Gs | Gsdg, Gsdg | Gsx, Gsx | Gsxdg, Gsxdg
-  | Gcx, Gcx | Gcz, Gcz | Gswap, Gswap => true
+  | Gcx, Gcx | Gcz, Gcz | Gswap, Gswap | Gccx, Gccx => true
   | _, _ => false
   end.
